@@ -333,6 +333,16 @@ class UndeclaredNameVisitor(NodeVisitor):
         self.visit(node.filter)
         self._visit_scope(*node.body)
 
+    def visit_If(self, node: nodes.If) -> None:
+        # A branch may not run: what it stores does not hide later uses.
+        self.visit(node.test)
+        self._visit_scope(*node.body)
+
+        for elif_ in node.elif_:
+            self.visit(elif_)
+
+        self._visit_scope(*node.else_)
+
     def visit_For(self, node: nodes.For) -> None:
         self.visit(node.iter)
         self._visit_scope(node.target, node.test, *node.body)
